@@ -94,6 +94,23 @@ def enumerate_cases(tier: str):
             for k, T in ((0, None), (9, None), (2, 901)):
                 yield {"kind": kind, "fault": fault, "file": "registry", "k": k, "T": T, "mutate": True, "late_change": True}
                 yield {"kind": kind, "fault": fault, "file": "missing", "k": k, "T": T, "mutate": "in-place", "late_change": True, "reader_task": True}
+    # every node is removed during the session: the file follows
+    for kind in KINDS:
+        for initial in ("registry", "big", "missing"):
+            if initial == "big" and kind not in ("plain", "stream"):
+                continue
+            for fault in ("none", "body"):
+                for k, T in ((0, None), (9, None), (2, 901), (0, 1800)):
+                    yield {"kind": kind, "fault": fault, "file": initial, "k": k, "T": T, "mutate": "clear"}
+                    if fault == "none":
+                        yield {"kind": kind, "fault": fault, "file": initial, "k": k, "T": T, "mutate": "clear", "reenter": True}
+    # the application's loop starts tasks eagerly (asyncio.eager_task_factory)
+    for kind in KINDS:
+        for fault in ("none", "body", "cancel-body"):
+            for k, T in ((0, None), (1, None), (9, None), (2, 901), (0, 1800)):
+                yield {"kind": kind, "fault": fault, "file": "registry", "k": k, "T": T, "mutate": True, "eager_tasks": True}
+                if fault == "none":
+                    yield {"kind": kind, "fault": fault, "file": "missing", "k": k, "T": T, "mutate": True, "eager_tasks": True, "reenter": True}
     # the same gateway object lives on under a second event loop (asyncio.run called again)
     for kind in KINDS:
         for fault in ("none", "body", "cancel-body"):
@@ -150,7 +167,7 @@ def strategy(tier: str):
             "file": st.sampled_from(FILES),
             "k": st.integers(0, 20),
             "T": st.one_of(st.none(), st.sampled_from((1, 899, 900, 901, 1799, 1800, 1801, 2700, 5000)), st.integers(1, 10000), st.floats(0.5, 4000.0).map(lambda x: round(x, 1))),
-            "mutate": st.sampled_from((True, False, "in-place", "churn")),
+            "mutate": st.sampled_from((True, True, False, "in-place", "churn", "clear")),
             "reenter": st.booleans(),
             "prefill": st.sampled_from((False, False, True)),
             "body_exc": st.sampled_from(BODY_EXCS),
@@ -162,6 +179,7 @@ def strategy(tier: str):
             "exit_task": st.sampled_from((False, False, True)),
             "late_change": st.sampled_from((False, False, True)),
             "between_edit": st.sampled_from((False, False, True)),
+            "eager_tasks": st.sampled_from((False, False, False, True)),
         }
     ).filter(lambda c: not (c["kind"] == "mqtt" and c["fault"] == "connect-once")).filter(lambda c: c["kind"] == "plain" or (c["kind"] == "plain-nosuspend" and c["fault"] not in ("connect-timeout", "disconnect-hang")) or ("disconnect" not in c["fault"] and c["fault"] != "connect-timeout"))
 
@@ -483,7 +501,9 @@ def run_case(case: dict) -> Outcome:
                     state, doc = disk()
                     if state != "ok" or doc != registry_doc(gateway):
                         return fail("entry:no-save-after-entering", f"one virtual second after entry the file is {state} {str(doc)[:120]!r}, registry {registry_doc(gateway)!r}")
-                if case["mutate"]:
+                if case["mutate"] == "clear":
+                    gateway.nodes.clear()  # the application decommissions every node: an empty registry is a registry like any other
+                elif case["mutate"]:
                     if case["mutate"] == "in-place" and gateway.nodes:
                         # change known nodes in place, the way the message handlers do
                         for node in gateway.nodes.values():
@@ -644,6 +664,7 @@ def run_case(case: dict) -> Outcome:
 
     try:
         try:
+          with env.eager_tasks(bool(case.get("eager_tasks"))):
             bad, _loop = run_virtual(main)
             if bad is None and case.get("new_loop") and fault in ("none", "body", "cancel-body") and "gateway" in shared:
                 bad, _loop = run_virtual(other_loop_session)
